@@ -436,6 +436,21 @@ def partial_case(sink, seed, idx):  # noqa: C901
     sink.check(optree.tree_structure(mapped) == sp and mapped.func == p.func, 'partial/spec-after-map', 'tree_map keeps the callable and the structure', ident)
     exp_repr_head = 'optree.functools.partial(' + repr(p.func)
     sink.check(repr(p).startswith(exp_repr_head) and repr(p).endswith(')'), 'partial/repr', 'repr names the wrapped callable first', ident, lambda: repr(p)[:200])
+    # several nested partials alive at the same time whose inner partials have the same function, equal args and the same keyword NAMES
+    vals = [U.Leaf(('scale', j)) for j in range(3)]
+    inners = [functools.partial(recorder, 'pos', scale=v, bias=0) for v in vals]
+    if rng.random() < 0.5:
+        inners = [optree.functools.partial(recorder, 'pos', scale=v, bias=0) for v in vals]
+    outers = [optree.functools.partial(inn, extra) for inn in inners]
+    for j, (out_p, inn) in enumerate(zip(outers, inners)):
+        del CALLS[:]
+        out_p()
+        ok_call = len(CALLS) == 1 and CALLS[0][1].get('scale') is vals[j] and CALLS[0][0] == ('pos', extra)
+        md = optree.tree_flatten_one_level(out_p).metadata
+        sink.check(ok_call and md == inn and out_p.func == inn, 'partial/siblings-with-equal-looking-inner-partials', 'each nested partial wraps ITS inner partial (metadata, .func, the call)', dict(ident, j=j),
+                   lambda: (repr(CALLS)[:200], repr(md)[:120]))
+    sp_out = [optree.tree_structure(p_) for p_ in outers]
+    sink.check(sp_out[0] != sp_out[1] and sp_out[1] != sp_out[2], 'partial/siblings-spec-ne', 'partials over different inner partials have unequal treespecs', ident)
     sink.count('partials')
     if depth > 1:
         sink.count('nested-partials')
